@@ -495,4 +495,3 @@ func uniq(xs []string) []string {
 	return out
 }
 
-var _ = dataplane.Configuration{}
